@@ -1,0 +1,9 @@
+//go:build verif
+
+// Contracts for package lcontext (comment-only; read by /verif/govc).
+
+package lcontext
+
+//@ func (LContext).Has
+//@   assigns nothing
+//@   ensures [def] result == (c.AfterContext > 0 || c.BeforeContext > 0 || c.MaxCount > 0)
